@@ -1,5 +1,7 @@
 import NanoVerif.Model.Proto
-import NanoVerif.Model.Scaling
+import NanoVerif.Model.ScalingTop
+import NanoVerif.Model.ScalingClass
+import NanoVerif.Gen.ScalingGuards
 /-!
   driver family `scaling` (C14): one self-contained op per line, the generic model of `Model/Scaling.lean` run at `Float`.
 
@@ -12,7 +14,18 @@ import NanoVerif.Model.Scaling
     T n: structured = n columns); columns of S/M features have scaling disabled (`enable_scaling = 0`);
   * `<X>` = `rows*cols` doubles (row-major flatten matrix, `nan` = missing), `<Y>` the flatten targets;
   * `<samples>` = the sample indices the statistics are computed from; scale/upscale/predict are applied to all rows;
-  * `<eps> <hi> <lo>` are appended by the harness: `epsilon2<scalar_t>()`, `numeric_limits<scalar_t>::max()/lowest()`.
+  * `<eps> <hi> <lo>` are appended by the harness: `epsilon2<scalar_t>()`, `numeric_limits<scalar_t>::max()/lowest()`;
+    `<eps>` must be the constant regenerated from `numeric.h` (`Gen.ScalingGuards.epsilon2` at `Float`), else `bad-op`.
+
+  `scaling t4 <batch> <tmode> <d1> <d2> <d3> <rows> <Y> <samples> <eps> <hi> <lo>`: a structured target and a structured feature
+  with dims `(d1, d2, d3)` holding the same values `<Y>` (`rows * d1*d2*d3` doubles): `targetsStats`, `featureStats`, `scale4`,
+  `upscale4`, elements read back with `get4` in the order `(s, i, j, k)`.
+
+  `scaling xclass <kind S|M> <classes> <astarget 0|1> <rows> <labels> <samples> <n> (<present 0|1> <hash>)…`: class statistics
+  (`xclassFor`) of the selected samples from the `(present, hash)` pairs the harness appends (`nano::hash` is the oracle).
+
+  The statistics are computed by the entry points of `Model/ScalingTop.lean` (`flattenStats` with the mask derived from the feature
+  descriptors, `targetsStats`, `featureStats`).
 -/
 namespace NanoVerif.Driver.Scaling
 open NanoVerif.Proto NanoVerif.Scaling
@@ -22,31 +35,31 @@ local instance : NatCast Float := ⟨Float.ofNat⟩
 def cell (x : Float) : Option Float := if x.isFinite then some x else none
 
 /-- `(kind, size)` per feature -/
-abbrev Feat := String × Nat
+abbrev WFeat := String × Nat
 
-def featCols : Feat → Option Nat
+def featCols : WFeat → Option Nat
   | ("S", k) => if k ≥ 2 then some (k - 1) else none
   | ("M", k) => if k ≥ 1 then some k else none
   | ("F", _) => some 1
   | ("T", n) => if n ≥ 1 then some n else none
   | _ => none
 
-def featEnabled : Feat → Bool
+def featEnabled : WFeat → Bool
   | ("S", _) => false
   | ("M", _) => false
   | _ => true
 
-def pGroup : P (List Feat) := fun ts => do
+def pGroup : P (List WFeat) := fun ts => do
   let (kind, ts) ← pStr ts
   let (sizes, ts) ← pList pNat ts
   pure (sizes.map (fun k => (kind, k)), ts)
 
-def pGroups : P (List Feat) := fun ts => do
+def pGroups : P (List WFeat) := fun ts => do
   let (gs, ts) ← pList pGroup ts
   pure (gs.flatten, ts)
 
 /-- enable mask per flatten column -/
-def maskOf (fs : List Feat) : Option (List Bool) :=
+def maskOf (fs : List WFeat) : Option (List Bool) :=
   fs.foldr (fun f acc => do
     let c ← featCols f
     let rest ← acc
@@ -66,8 +79,8 @@ def showStats (ss : List (Stats Float)) : String :=
     showFloats (ss.map (·.mulRange)), showFloats (ss.map (·.divSd)), showFloats (ss.map (·.mulSd))]
 
 structure Data where
-  feats : List Feat
-  tfeat : Feat
+  feats : List WFeat
+  tfeat : WFeat
   rows : Nat
   cols : Nat
   X : List (List Float)
@@ -95,6 +108,22 @@ def pData : P Data := fun ts => do
   guard (mask.length = cols)
   pure (⟨feats, (tkind, tsize), rows, cols, chunk cols rows xs, tcols, chunk tcols rows ys, sel⟩, ts)
 
+/-- the descriptor the model's entry points read: kind and number of columns -/
+def toFeat (cols : Nat) : WFeat → Option Feat
+  | ("S", _) => some ⟨.sclass, cols⟩
+  | ("M", _) => some ⟨.mclass, cols⟩
+  | ("F", _) => some ⟨.scalar, cols⟩
+  | ("T", _) => some ⟨.struct, cols⟩
+  | _ => none
+
+def toFeats (fs : List WFeat) : Option (List Feat) :=
+  fs.mapM (fun f => do toFeat (← featCols f) f)
+
+def cells (rows : List (List Float)) : List (List (Option Float)) := rows.map (·.map cell)
+
+/-- `epsilon2<scalar_t>()` regenerated from the source, at `Float` -/
+def genEps : Float := Gen.ScalingGuards.epsilon2
+
 def selectRows (d : List (List Float)) (sel : List Nat) : List (List Float) :=
   let arr := d.toArray
   sel.map (fun i => arr.getD i [])
@@ -119,9 +148,11 @@ def handle : Toks → Option String
     guard ts.isEmpty
     guard (batch ≥ 1 ∧ w.length = d.tcols * d.cols ∧ b.length = d.tcols)
     let W := chunk d.cols d.tcols w
-    let mask ← maskOf d.feats
-    let fs := statsOf hi lo eps mask (selectRows d.X d.sel)
-    let ts' := statsOf hi lo eps (List.replicate d.tcols (featEnabled d.tfeat)) (selectRows d.Y d.sel)
+    guard (eps == genEps)
+    let feats ← toFeats d.feats
+    let tfeat ← toFeat d.tcols d.tfeat
+    let fs := flattenStats hi lo eps feats (cells (selectRows d.X d.sel))
+    let ts' ← targetsStats hi lo eps (some tfeat) (cells (selectRows d.Y d.sel))
     let sx ← d.X.mapM (fun r => scaleRow xmode fs (r.map cell))
     let ux ← sx.mapM (upscaleRow xmode fs)
     let sy ← d.Y.mapM (fun r => scaleRow tmode ts' (r.map cell))
@@ -145,16 +176,73 @@ def handle : Toks → Option String
     let (lo, ts) ← pFloat ts
     guard ts.isEmpty
     guard (batch ≥ 1)
+    guard (eps == genEps)
     let f ← d.feats[ifeat]?
-    if !featEnabled f then
-      -- `critical0("scalar statistics cannot be computed for categorical feature…")`
-      pure "throw critical"
-    else
-      let before ← (d.feats.take ifeat).mapM featCols
-      let off := before.foldl (· + ·) 0
-      let c ← featCols f
-      let rows := (selectRows d.X d.sel).map (fun r => (r.drop off).take c)
-      pure s!"ok {showStats (statsOf hi lo eps (List.replicate c true) rows)}"
+    let before ← (d.feats.take ifeat).mapM featCols
+    let off := before.foldl (· + ·) 0
+    let c ← featCols f
+    let mf ← toFeat c f
+    let rows := (selectRows d.X d.sel).map (fun r => (r.drop off).take c)
+    match featureStats hi lo eps mf (cells rows) with
+    | none => pure "throw critical"   -- `critical0("scalar statistics cannot be computed for categorical feature…")`
+    | some ss => pure s!"ok {showStats ss}"
+  | "t4" :: ts => do
+    let (batch, ts) ← pNat ts
+    let (tm, ts) ← pNat ts
+    let tmode ← Mode.ofNat? tm
+    let (d1, ts) ← pNat ts
+    let (d2, ts) ← pNat ts
+    let (d3, ts) ← pNat ts
+    let (rows, ts) ← pNat ts
+    let (ys, ts) ← pList pFloat ts
+    let (sel, ts) ← pList pNat ts
+    let (eps, ts) ← pFloat ts
+    let (hi, ts) ← pFloat ts
+    let (lo, ts) ← pFloat ts
+    guard ts.isEmpty
+    let d : Dims3 := ⟨d1, d2, d3⟩
+    guard (batch ≥ 1 ∧ d1 ≥ 1 ∧ d2 ≥ 1 ∧ d3 ≥ 1 ∧ rows ≥ 1 ∧ ys.length = rows * d.size ∧ sel.all (· < rows))
+    guard (eps == genEps)
+    let Y := chunk d.size rows ys
+    let f : Feat := ⟨.struct, d.size⟩
+    let tst ← targetsStats hi lo eps (some f) (cells (selectRows Y sel))
+    let fst ← featureStats hi lo eps f (cells (selectRows Y sel))
+    let sy ← scale4 tmode tst (cells Y)
+    let uy ← upscale4 tmode tst sy
+    let sf ← scale4 tmode fst (cells Y)
+    -- element by element with four indices, as the harness reads the tensors
+    let idx : List (Nat × Nat × Nat × Nat) :=
+      (List.range rows).flatMap (fun s => (List.range d1).flatMap (fun i => (List.range d2).flatMap (fun j =>
+        (List.range d3).map (fun k => (s, i, j, k)))))
+    let rd (t : List (List Float)) : Option (List Float) := idx.mapM (fun (s, i, j, k) => get4 d t s i j k)
+    let a ← rd sy
+    let b ← rd uy
+    let c ← rd sf
+    pure (String.intercalate " " ["ok", toString d1, toString d2, toString d3, showStats tst, showStats fst,
+      showFloats a, showFloats b, showFloats c])
+  | "xclass" :: ts => do
+    let (kind, ts) ← pStr ts
+    let (classes, ts) ← pNat ts
+    let (astarget, ts) ← pNat ts
+    let (rows, ts) ← pNat ts
+    let (labels, ts) ← pList pInt ts
+    let (sel, ts) ← pList pNat ts
+    let (n, ts) ← pNat ts
+    let (flat, ts) ← pMany pNat (2 * n) ts
+    guard ts.isEmpty
+    guard (n = sel.length ∧ rows ≥ 1 ∧ astarget ≤ 1 ∧ labels.length = rows * (if kind = "S" then 1 else classes))
+    let rec pairs : List Nat → List (Bool × Nat)
+      | p :: h :: rest => (p != 0, h) :: pairs rest
+      | _ => []
+    let ss := pairs flat
+    let f ← toFeat classes (kind, classes)
+    let st : XStats Float ← xclassFor f ss
+    let one := String.intercalate " " [showNats st.hashes, showNats st.classSamples, showInts st.sampleClasses,
+      showFloats st.sampleWeights]
+    -- a continuous feature / target is refused (`critical0`): both probes of the harness
+    let refusedF := if (xclassFor (α := Float) ⟨.scalar, 1⟩ ss).isNone then 1 else 0
+    let out := if astarget = 1 then s!"ok {one} 1 {one} {refusedF + 1}" else s!"ok {one} 0 {refusedF + refusedF}"
+    pure out
   | _ => none
 
 end NanoVerif.Driver.Scaling
